@@ -902,6 +902,13 @@ def main(argv):
         for op in ["+", "*", "**", "//", "==", ".lt.", ".and.", ".or.", ".eqv.", ".myop."]:
             fam["parens_left_" + op] = nest("(%%(e)s %s b%%(k)d)" % op)
             fam["parens_right_" + op] = nest("(b%%(k)d %s %%(e)s)" % op)
+        # brackets whose content mixes two operator levels, the nested bracket being the last operand of the tighter one
+        for outer in [">", "==", ".and.", ".or.", ".eqv.", "//"]:
+            for inner in ["+", "*", "**", "//", "<", ".and."]:
+                lvl = {"**": 10, "*": 9, "+": 8, "//": 7, "<": 6, ">": 6, "==": 6, ".and.": 4, ".or.": 3, ".eqv.": 2}
+                if lvl[inner] > lvl[outer]:
+                    fam["parens_mixed_%s_%s" % (outer, inner)] = nest("(c %s b%%(k)d %s %%(e)s)" % (outer, inner))
+                    fam["parens_mixed_left_%s_%s" % (outer, inner)] = nest("(%%(e)s %s b%%(k)d %s c)" % (inner, outer))
         fam["parens_unary_not"] = nest("(.not. %(e)s)")
         fam["parens_unary_minus"] = nest("(- %(e)s)")
         fam["nested_calls"] = nest("f(%(e)s)")
